@@ -54,7 +54,11 @@ func genBlockRecv(r *RNG, classes []*GClass) bRecv {
 		return "[" + strings.Join(lits, ", ") + "]", dedup(sortedCopy(cls))
 	}
 	for {
-		switch r.Intn(9) {
+		switch r.Intn(10) {
+		case 9:
+			// a receiver without elements: the parameter's type is not judged, the
+			// surplus parameters are nil and shadowing works as ever
+			return bRecv{Pick(r, []string{"[]", "[[]]", "[[], []]"}), "each", [][]string{nil}, "array-empty:each"}
 		case 0, 1:
 			lit, e := elems()
 			m := Pick(r, []string{"each", "each_with_index", "each_index", "reject", "delete_if", "all?", "count", "sort", "max", "min"})
@@ -371,7 +375,7 @@ func init() {
 			return judgeBlocks(c, s.BlackBox(), &bc)
 		},
 		Run: func(c *CheckCtx) {
-			c.rule = "generated block calls in do/end and brace form on array literals (each, each_with_index, each_index, reject, delete_if, all?, count, sort, max, min), hash literals (each), integers (times, downto), strings (each_char, each_byte, each_line), ranges (each) and instances of generated configured classes with declared scalar block_parameters; 0-3 block parameters (fewer and more than declared), names that shadow outer variables, blocks nested up to depth 3, a variable first assigned inside the block; at top level or inside a called method. Oracle: each parameter probe prints the declared type resolved against the receiver (element union for Unify/Flatten, Integer for Int, ...), surplus parameters NilClass, a shadowed variable its previous type after the block and the enclosing block's parameter after a nested block, a block local not its inner type after the block. distinct_nontrivial = distinct programs"
+			c.rule = "generated block calls in do/end and brace form on array literals (also empty ones and arrays of empty arrays; each, each_with_index, each_index, reject, delete_if, all?, count, sort, max, min), hash literals (each), integers (times, downto), strings (each_char, each_byte, each_line), ranges (each) and instances of generated configured classes with declared scalar block_parameters; 0-3 block parameters (fewer and more than declared), names that shadow outer variables, blocks nested up to depth 3, a variable first assigned inside the block; at top level or inside a called method. Oracle: each parameter probe prints the declared type resolved against the receiver (element union for Unify/Flatten, Integer for Int, ...), surplus parameters NilClass, a shadowed variable its previous type after the block and the enclosing block's parameter after a nested block, a block local not its inner type after the block. distinct_nontrivial = distinct programs"
 			c.assumptions = []string{"Hash#each's key parameter (declared Untyped) is not judged", "a probe evaluated several times must print types within the expectation that together cover it"}
 			r := c.RNG.Sub(17)
 			var jobs []*bCase
